@@ -385,6 +385,16 @@ fn registry() -> Vec<Op> {
         op!("boxed.trait_arith", true, true, |i| foldb(&num_traits::WrappingAdd::wrapping_add(&i.ba, &i.bb)) ^ foldb(&num_traits::WrappingSub::wrapping_sub(&i.ba, &i.bb)) ^ foldb(&num_traits::WrappingMul::wrapping_mul(&i.ba, &i.bb)) ^ foldb(&num_traits::WrappingNeg::wrapping_neg(&i.ba))
             ^ foldc(CheckedAdd::checked_add(&i.ba, &i.bb).is_some()) ^ foldc(CheckedSub::checked_sub(&i.ba, &i.bb).is_some())),
         op!("boxed.trait_cmp", true, true, |i| (i.ba == i.bb) as u64 ^ ((i.ba < i.bb) as u64) << 1 ^ ((i.ba >= i.bb) as u64) << 2 ^ (i.ba.partial_cmp(&i.bb).unwrap() as i8 as u64)),
+        // --- the Checked wrapper: every operand form of + - *, and two-step chains whose first step overflows or not
+        //     depending on the secrets (a poisoned operand must take the same path as a good one)
+        op!("checked.wrapper.mul_chain", true, true, |i| { let (a, b) = (Checked::new(i.a), Checked::new(i.b)); let p = &a * &b;
+            fold(&(&p * &b).0.unwrap_or(U::ZERO)) ^ fold(&(&b * &p).0.unwrap_or(U::ZERO)) ^ fold(&(p * b).0.unwrap_or(U::ZERO)) ^ fold(&(a * p).0.unwrap_or(U::ZERO))
+            ^ fold(&(p * &a).0.unwrap_or(U::ZERO)) ^ fold(&(&a * p).0.unwrap_or(U::ZERO)) ^ fold(&(&p * &p).0.unwrap_or(U::ZERO)) }),
+        op!("checked.wrapper.addsub_chain", true, true, |i| { let (a, b) = (Checked::new(i.a), Checked::new(i.b)); let p = &a + &b; let q = &a - &b;
+            fold(&(&p + &b).0.unwrap_or(U::ZERO)) ^ fold(&(&b + &q).0.unwrap_or(U::ZERO)) ^ fold(&(p + q).0.unwrap_or(U::ZERO)) ^ fold(&(&q - &a).0.unwrap_or(U::ZERO))
+            ^ fold(&(a - p).0.unwrap_or(U::ZERO)) ^ fold(&(p - &b).0.unwrap_or(U::ZERO)) ^ fold(&(&q + p).0.unwrap_or(U::ZERO)) ^ fold(&(q * &p).0.unwrap_or(U::ZERO)) ^ fold(&(&p * q).0.unwrap_or(U::ZERO)) }),
+        op!("checked.wrapper.assign_chain", true, true, |i| { let (a, b) = (Checked::new(i.a), Checked::new(i.b)); let mut x = a; x *= b; x += a; x -= &b; x *= &a; x += &b; x -= a;
+            fold(&x.0.unwrap_or(U::ZERO)) ^ foldc(x.0.is_some()) }),
         // --- boxed operands of DIFFERENT precision (256-bit against 2048-bit, both orders)
         op!("boxed.mixed.ct_eq", true, true, |i| foldc(i.ba.ct_eq(&i.bwa)) ^ foldc(i.bwa.ct_eq(&i.ba)) ^ ((i.ba == i.bwb) as u64) << 1),
         op!("boxed.mixed.ct_lt_gt", true, true, |i| foldc(i.ba.ct_lt(&i.bwa)) ^ foldc(i.bwa.ct_lt(&i.ba)) ^ foldc(i.ba.ct_gt(&i.bwb)) ^ foldc(i.bwb.ct_gt(&i.ba))),
